@@ -9,6 +9,7 @@
 #include <cstring>
 #include <dirent.h>
 #include <dlfcn.h>
+#include <execinfo.h>
 #include <fcntl.h>
 #include <set>
 #include <sys/mman.h>
@@ -31,6 +32,7 @@ namespace
   std::set <std::string> *g_primaries;
   std::string *g_fd_vpath[MAXFD];	// non-null: tracked and open
   bool g_fd_was_tracked[MAXFD];		// closed tracked fd, not reissued since
+  bool g_fd_closed_by_exe[MAXFD];	// that close came from the executable
   bool g_deny_mmap = false;
   std::vector <std::pair <int, int>> *g_io_faults;
   int g_io_calls = 0;
@@ -288,13 +290,34 @@ stat (char const *path, struct stat *st)
   return r (realp.c_str (), st);
 }
 
+// Whether the code at ADDR belongs to the executable (repo + harness objects)
+// rather than to a shared library such as libdw.
+static bool
+in_executable (void *addr)
+{
+  static void *exe_base = [] {
+    Dl_info me;
+    return dladdr (reinterpret_cast <void *> (&fs_reset), &me) ? me.dli_fbase : nullptr;
+  } ();
+  Dl_info info;
+  return dladdr (addr, &info) != 0 && info.dli_fbase == exe_base;
+}
+
 extern "C" int
 close (int fd)
 {
   typedef int (*close_t) (int);
   static close_t r = real <close_t> ("close");
+  bool by_exe = in_executable (__builtin_return_address (0));
   bool tracked = g_active && fd >= 0 && fd < MAXFD && g_fd_vpath[fd] != nullptr;
   bool was = g_active && fd >= 0 && fd < MAXFD && g_fd_was_tracked[fd];
+  if ((tracked || was) && getenv ("ZSIM_DEBUG_CLOSE") != nullptr)
+    {
+      void *bt[40];
+      int n = backtrace (bt, 40);
+      fprintf (stderr, "zsim: close(%d) tracked=%d was=%d\n", fd, tracked, was);
+      backtrace_symbols_fd (bt, n, 2);
+    }
   int ret = r (fd);
   int e = errno;
   if (tracked)
@@ -303,6 +326,7 @@ close (int fd)
       delete g_fd_vpath[fd];
       g_fd_vpath[fd] = nullptr;
       g_fd_was_tracked[fd] = true;
+      g_fd_closed_by_exe[fd] = by_exe;
     }
   else if (was)
     {
@@ -310,7 +334,14 @@ close (int fd)
       // already is being closed again.
       ++g_stats.double_close;
       if (ret == -1 && e == EBADF)
-	++g_stats.close_ebadf;
+	{
+	  // Only dwgrep's business if dwgrep performed one of the two closes;
+	  // elfutils closing its own descriptor twice on an I/O error is not.
+	  if (by_exe || g_fd_closed_by_exe[fd])
+	    ++g_stats.close_ebadf;
+	  else
+	    ++g_stats.close_ebadf_in_libs;
+	}
       g_fd_was_tracked[fd] = false;
     }
   errno = e;
